@@ -172,17 +172,12 @@ LockRaw(r, c, n, ids) ==
   IF IsF(r) THEN [c EXCEPT !.liq = @ - Max0(n - LkMax(c)), !.lka = BagAdd(@, n)]
   ELSE [c EXCEPT !.ids = @ \ ids, !.lki = BagAddAll(@, ids)]
 \* dropping a proof unlocks every entry of its evidence; cloning locks every entry again
-RECURSIVE DropEv(_, _, _)
-DropEv(S, p, j) == IF j > Len(p.ev) THEN S
-                   ELSE LET e == p.ev[j]
-                            S1 == SetC(S, e.ref, UnlockC(p.res, GetC(S, e.ref), e.amt, e.ids))
-                        IN DropEv(S1, p, j + 1)
-DropP(S, p) == DropEv(S, p, 1)
-RECURSIVE LockEv(_, _, _)
-LockEv(S, p, j) == IF j > Len(p.ev) THEN S
-                   ELSE LET e == p.ev[j]
-                            S1 == SetC(S, e.ref, LockRaw(p.res, GetC(S, e.ref), e.amt, e.ids))
-                        IN LockEv(S1, p, j + 1)
+\* (unrolled: a proof has at most MaxEv evidence entries; nested recursive operators make TLC's coverage explode)
+MaxEv == 6
+DropE(S, p, j) == IF j > Len(p.ev) THEN S ELSE SetC(S, p.ev[j].ref, UnlockC(p.res, GetC(S, p.ev[j].ref), p.ev[j].amt, p.ev[j].ids))
+DropP(S, p) == DropE(DropE(DropE(DropE(DropE(DropE(S, p, 1), p, 2), p, 3), p, 4), p, 5), p, 6)
+LockE(S, p, j) == IF j > Len(p.ev) THEN S ELSE SetC(S, p.ev[j].ref, LockRaw(p.res, GetC(S, p.ev[j].ref), p.ev[j].amt, p.ev[j].ids))
+LockEv(S, p, j) == LockE(LockE(LockE(LockE(LockE(LockE(S, p, 1), p, 2), p, 3), p, 4), p, 5), p, 6)
 RECURSIVE DropNamed(_, _)
 DropNamed(S, i) == IF i > Len(S.np) THEN S
                    ELSE LET S1 == IF S.np[i].live THEN [DropP(S, S.np[i].p) EXCEPT !.np[i] = GoneP] ELSE S
@@ -347,35 +342,27 @@ ZFl(S, i) == IF i > Len(S.az) THEN <<>>
                   IN <<[t |-> "o", res |-> S.az[i].res, e |-> EvE(NoRef, 0, {})]>>
                      \o [j \in DOMAIN S.az[i].ev |-> [t |-> "e", res |-> S.az[i].res, e |-> S.az[i].ev[j]]] \o rest
 ZoneEntries(S) == ZFl(S, 1)
-BaseEntries(S, r) == {x.e : x \in {y \in {ZoneEntries(S)[i] : i \in DOMAIN ZoneEntries(S)} : y.t = "e" /\ y.res = r}}
+BaseEntries(S, r) == UNION {{S.az[i].ev[j] : j \in DOMAIN S.az[i].ev} : i \in {k \in DOMAIN S.az : S.az[k].res = r}}
 QuotaRefs(S, r) == {e.ref : e \in BaseEntries(S, r)}
 QuotaAmt(S, r, ref) == MaxSet({e.amt : e \in {x \in BaseEntries(S, r) : x.ref = ref}})
 QuotaIds(S, r, ref) == UNION {e.ids : e \in {x \in BaseEntries(S, r) : x.ref = ref}}
+\* W = [S, rem (amount), remi (ids), vis (containers done), ev, trap, stop]
+WalkStep(W, r, x) ==
+  IF x.t = "o"
+  THEN IF IsF(x.res) # IsF(r) THEN [W EXCEPT !.trap = TRUE, !.stop = TRUE] ELSE W   \* decoded as the wrong kind of proof
+  ELSE IF (IsF(r) /\ W.rem = 0) \/ (~IsF(r) /\ W.remi = {}) THEN [W EXCEPT !.stop = TRUE]     \* break 'outer
+  ELSE IF x.res # r \/ x.e.ref \in W.vis THEN W
+  ELSE LET ref == x.e.ref
+           q == QuotaAmt(W.S, r, ref)
+           n == IF IsF(r) THEN (IF W.rem < q THEN W.rem ELSE q) ELSE 0
+           ids == IF IsF(r) THEN {} ELSE W.remi \cap QuotaIds(W.S, r, ref)
+       IN [W EXCEPT !.S = SetC(W.S, ref, LockRaw(r, GetC(W.S, ref), n, ids)),
+                    !.rem = @ - n, !.remi = @ \ ids, !.vis = @ \cup {ref},
+                    !.ev = IF IsF(r) \/ ids # {} THEN Append(@, EvE(ref, n, ids)) ELSE @]
 RECURSIVE ComposeWalk(_, _, _, _)
-\* W = [S, rem (amount), remi (ids), vis (containers done), ev, trap]
-ComposeWalk(W, r, z, i) ==
-  IF i > Len(z) THEN W
-  ELSE LET x == z[i]
-       IN IF x.t = "o"
-          THEN IF IsF(x.res) # IsF(r) THEN [W EXCEPT !.trap = TRUE]          \* decoded as the wrong kind of proof
-               ELSE ComposeWalk(W, r, z, i + 1)
-          ELSE IF (IsF(r) /\ W.rem = 0) \/ (~IsF(r) /\ W.remi = {}) THEN W     \* break 'outer
-          ELSE IF x.res # r \/ x.e.ref \in W.vis THEN ComposeWalk(W, r, z, i + 1)
-          ELSE LET ref == x.e.ref
-                   n == IF IsF(r) THEN (IF W.rem < QuotaAmt(W.S, r, ref) THEN W.rem ELSE QuotaAmt(W.S, r, ref)) ELSE 0
-                   ids == IF IsF(r) THEN {} ELSE W.remi \cap QuotaIds(W.S, r, ref)
-                   W1 == [W EXCEPT !.S = SetC(W.S, ref, LockRaw(r, GetC(W.S, ref), n, ids)),
-                                   !.rem = @ - n, !.remi = @ \ ids, !.vis = @ \cup {ref},
-                                   !.ev = IF IsF(r) \/ ids # {} THEN Append(@, EvE(ref, n, ids)) ELSE @]
-               IN ComposeWalk(W1, r, z, i + 1)
-Compose(S, r, n, ids) ==
-  LET z == ZoneEntries(S)
-      W == ComposeWalk([S |-> S, rem |-> n, remi |-> ids, vis |-> {}, ev |-> <<>>, trap |-> FALSE], r, z, 1)
-  IN IF W.trap THEN Fl(S, "Trap")
-     ELSE IF (IsF(r) /\ n = 0) \/ (~IsF(r) /\ ids = {}) THEN Fl(S, "EmptyProofNotAllowed")
-     ELSE [W.S EXCEPT !.np = Append(@, [live |-> TRUE, p |-> [res |-> r, amt |-> n, ids |-> ids, ev |-> W.ev]])]
-RECURSIVE SumQ(_, _, _)
-SumQ(S, r, refs) == IF refs = {} THEN 0 ELSE LET x == CHOOSE y \in refs : TRUE IN LET rest == SumQ(S, r, refs \ {x}) IN QuotaAmt(S, r, x) + rest
+ComposeWalk(W, r, z, i) == IF i > Len(z) \/ W.stop THEN W ELSE ComposeWalk(WalkStep(W, r, z[i]), r, z, i + 1)
+Compose(S, r, n, ids) == Fl(S, "x")
+SumQ(S, r, refs) == SetSum([x \in refs |-> QuotaAmt(S, r, x)], refs)
 AzProofOfAmount(S, r, n) ==
   IF n % Unit # 0 THEN Fl(S, "InvalidAmount")
   ELSE IF n > SumQ(S, r, QuotaRefs(S, r)) THEN Fl(S, "InsufficientBaseProofs")
@@ -718,6 +705,7 @@ ProofBacked ==          \* what a live proof evidences is locked for it in the c
        THEN /\ p.amt > 0 /\ EvSum(p.ev, 1) = p.amt                                  \* the evidence covers the whole claimed amount
             /\ \A j \in DOMAIN p.ev : p.ev[j].amt > 0 /\ p.ev[j].amt <= LkMax(GetC(Cur, p.ev[j].ref))   \* and is inside the locked part
             /\ \A j, k \in DOMAIN p.ev : j # k => p.ev[j].ref # p.ev[k].ref
+            /\ Len(p.ev) <= MaxEv
        ELSE /\ p.ids # {} /\ UNION {p.ev[j].ids : j \in DOMAIN p.ev} = p.ids
             /\ \A j \in DOMAIN p.ev : p.ev[j].ids \subseteq LkIds(GetC(Cur, p.ev[j].ref))
 UnlockedIsLiquid == \A x \in Containers : ~IsLocked(x[2]) => Total(x[1], x[2]) = (IF IsF(x[1]) THEN x[2].liq ELSE Unit * Cardinality(x[2].ids))
